@@ -20,6 +20,16 @@ class Unsupported(Exception):
     """The executed code left the subset the engine models (verdict: undecided)."""
 
 
+class Proxy:
+    """Base of every prelude object: an attribute the model does not have is an ENGINE gap
+    (raised here, inside pyvc, so that it is classified as undecided), not behaviour of the code."""
+
+    def __getattr__(self, name):
+        if name.startswith("__") and name.endswith("__"):
+            raise AttributeError(name)
+        raise AttributeError("%s.%s is not modelled by the prelude" % (type(self).__name__, name))
+
+
 class SpecError(Exception):
     """A contract clause is malformed (checker error, exit 3)."""
 
